@@ -30,6 +30,8 @@ from concurrent.futures import ThreadPoolExecutor
 from lib import vlib
 
 PROFILES = ["dev", "prod", "staging_eu"]
+# names of the harness's hand-written `ConfigProfile` implementation (kept in sync with cfgload's FREE_PROFILES)
+FREE_PROFILES = ["prod.eu", "prod.us", "v1.2", "my-profile", "Stage_2", "a.b.c"]
 
 # key path, type, optional-in-lenient default (as it appears in the JSON output)
 KEYS = [
@@ -159,13 +161,15 @@ def make_case(rng, idx, variant, assign, profile_mode, dir_mode, exhaustive=Fals
         if typ.startswith("list"):
             srcs = [s for s in srcs if s != "env"]  # lists live in the files only
         vals[k] = {s: gen_value(rng, typ, s[0], used, (list_lens or {}).get(k, {}).get(s)) for s in srcs}
-    profile = rng.pick(PROFILES)
-    other = rng.pick([p for p in PROFILES if p != profile])
+    # one case in three uses the hand-written profile type, whose names the derive macro cannot produce
+    family = FREE_PROFILES if rng.chance(1, 3) else PROFILES
+    profile = rng.pick(family)
+    other = rng.pick([p for p in family if p != profile])
     if dir_mode == "rel_shadowing_complete" and not all(any(s in assign.get(k, ()) for k, _ in KEYS) for s in ("profile", "base")):
         # the first-hit directory would lack a file: that is the `split_*` class, keep the classes apart
         dir_mode = "rel_parent"
     case = {"idx": idx, "variant": variant, "assign": {k: sorted(vals[k]) for k, _ in KEYS},
-            "vals": vals, "block_lists": bool(rng.chance(1, 2)), "profile": profile, "profile_mode": profile_mode, "dir_mode": dir_mode,
+            "vals": vals, "block_lists": bool(rng.chance(1, 2)), "profile": profile, "profile_type": "free" if family is FREE_PROFILES else "derived", "profile_mode": profile_mode, "dir_mode": dir_mode,
             "exhaustive": exhaustive}
     # decoy values: what the *other* profile's file / a shadowed directory would provide
     decoy = {}
@@ -272,6 +276,8 @@ def materialise(case, root):
         raise AssertionError(dm)
     os.makedirs(cwd, exist_ok=True)
 
+    if case.get("profile_type") == "free":
+        args += ["--profile-type", "free"]
     if pm == "env":
         env["PX_PROFILE"] = profile
     elif pm == "explicit":
